@@ -86,6 +86,7 @@ def check(prog, run):
             run.ob("R-bind", m.qual, f"sc -> SC_apply.{p_}", ok, detail, witness=detail[:90], file=rel(prog.mods[m.mod].path), node=c, config=p_)
     if not nb_:
         run.ob("R-bind", "pyoma2.algorithms", "callers of SC_apply", None, "no run() method calling SC_apply found")
+    first_order(prog, run)
     run.rule("R-labels", "readers of Lab reachable from the algorithm classes compare it only with values SC_apply writes", 4)
     run.rule("R-final", "every run() labels the pole tables it stores: the tables handed to SC_apply carry all the criteria of the stored ones", 12)
     from . import C09
@@ -299,6 +300,61 @@ def check(prog, run):
         one_in_then = bool(lam["parts"]) if lowered else any(isinstance(n.value, ast.Constant) and n.value.value == 1 and any(n is x for b in ifn.body for x in ast.walk(b)) for n, t in stores)
         ob("R-neighbour", "label 1 is written in the success branch of the conjunction", one_in_then, "store of 1 inside the `if` body" if one_in_then else "label 1 not written under the test", "misplaced")
     labels_readers(prog, run)
+
+
+def first_order(prog, run):
+    """'not the first order': what is skipped for having no previous order is column 0 of the tables - not the first ITERATION of
+    the loop, which starts at ordmin.  A store of labels guarded by a variable that is carried from one iteration to the next
+    (`prev is not None`, a first-time flag) skips order ordmin whenever ordmin > 0."""
+    run.rule("R-first-order", "in SC_apply the labelling of an order is skipped only for column 0 (a test on the order index), not for the first iteration of the loop "
+             "over range(ordmin, ..) (a test on a value carried over from the previous iteration)", 1)
+    fi = prog.raw.functions.get("pyoma2.functions.gen.SC_apply")
+    if fi is None:
+        return
+    f = rel(prog.mods[fi.mod].path)
+    rets = {x.id for r in ast.walk(fi.node) if isinstance(r, ast.Return) and r.value is not None for x in ast.walk(r.value) if isinstance(x, ast.Name)}
+    n = 0
+    for loop in ast.walk(fi.node):
+        if not (isinstance(loop, ast.For) and isinstance(loop.iter, ast.Call) and astq.src(loop.iter.func).split(".")[-1] in ("range", "trange", "arange")):
+            continue
+        start = loop.iter.args[0] if len(loop.iter.args) >= 2 else None
+        if start is None or isinstance(start, ast.Constant):
+            continue            # a loop from 0: its first iteration IS column 0
+        stores = [s_ for s_ in ast.walk(loop) if isinstance(s_, ast.Assign) and any(isinstance(t_, ast.Subscript) and isinstance(t_.value, ast.Name) and t_.value.id in rets for t_ in s_.targets)]
+        if not stores:
+            continue
+        # names that carry a value from one iteration to the next: bound before the loop (to None / a flag) and re-bound inside it
+        before = {t_.id: a_.value for a_ in ast.walk(fi.node) if isinstance(a_, ast.Assign) and a_.lineno < loop.lineno for t_ in a_.targets if isinstance(t_, ast.Name)}
+        inside = {t_.id for a_ in ast.walk(loop) if isinstance(a_, ast.Assign) for t_ in a_.targets if isinstance(t_, ast.Name)}
+        carried = {k for k, v in before.items() if k in inside and isinstance(v, ast.Constant) and (v.value is None or isinstance(v.value, bool))}
+        pm = astq.parent_map(loop)
+        lv = {x.id for x in ast.walk(loop.target) if isinstance(x, ast.Name)}
+        idx_names = lv | {t_.id for a_ in ast.walk(loop) if isinstance(a_, ast.Assign) for t_ in a_.targets if isinstance(t_, ast.Name)
+                          and any(isinstance(y, ast.Name) and y.id in lv for y in ast.walk(a_.value))}
+        for st in stores:
+            n += 1
+            guards = []
+            cur = st
+            while cur in pm and pm[cur] is not loop:
+                cur = pm[cur]
+                if isinstance(cur, ast.If):
+                    guards.append(cur.test)
+            # early `continue` guards before the store count as well
+            for s_ in loop.body:
+                if isinstance(s_, ast.If) and any(isinstance(y, ast.Continue) for y in s_.body) and s_.lineno < st.lineno:
+                    guards.append(s_.test)
+            on_state = [g for g in guards if any(isinstance(y, ast.Name) and y.id in carried for y in ast.walk(g)) and not any(isinstance(y, ast.Name) and y.id in idx_names for y in ast.walk(g))]
+            on_index = [g for g in guards if any(isinstance(y, ast.Name) and y.id in idx_names for y in ast.walk(g))]
+            if on_state:
+                run.ob("R-first-order", fi.qual, "skipped order = column 0", False,
+                       f"`{astq.src(st, 50)}` is carried out only when `{astq.src(on_state[0], 40)}` - a value carried over from the previous iteration: the first iteration of "
+                       f"`for {astq.src(loop.target)} in {astq.src(loop.iter, 40)}` is order {astq.src(start)}, which has a previous order whenever {astq.src(start)} > 0 and is left unlabelled",
+                       witness=astq.src(on_state[0], 40), file=f, node=st)
+            else:
+                run.ob("R-first-order", fi.qual, "skipped order = column 0", True if on_index else None,
+                       f"`{astq.src(st, 50)}` guarded by `{astq.src(on_index[0], 40)}`" if on_index else f"`{astq.src(st, 50)}`: no guard on the order index found around it", file=f, node=st)
+    if not n:
+        run.ob("R-first-order", fi.qual, "skipped order = column 0", None, "no store of labels inside a loop over range(ordmin, ..) found", file=f)
 
 
 def _lam_conditions(prog, fi, tF, tX, tP, tolnames):
